@@ -30,7 +30,9 @@ fn observe(p: &hv::Picture) -> Expect {
                 hv::PixelAspectRatio::Par10_11 => (3, (0, 0)),
                 hv::PixelAspectRatio::Par16_11 => (4, (0, 0)),
                 hv::PixelAspectRatio::Par40_33 => (5, (0, 0)),
-                hv::PixelAspectRatio::Reserved(r) => (r, (0, 0)),
+                // `Reserved` is the right answer for the codes 6..=14 only; reported for a code that has a
+                // name it must not compare equal to that name
+                hv::PixelAspectRatio::Reserved(r) => (if (6..=14).contains(&r) { r } else { 0x80 | r }, (0, 0)),
                 hv::PixelAspectRatio::Extended { par_width, par_height } => (15, (par_width, par_height)),
             };
             Fmt::Custom { par, epar, w: c.picture_width_indication, h: c.picture_height_indication }
